@@ -36,7 +36,7 @@ Theorem C14_destroyed_is_recorded_and_final :
     (forall f', run_cmd s' (OUp id f') = (s', RDestroyed)).
 Proof. exact remove_destroyed_pf. Qed.
 
-(* a store becomes tombstone only while no region has a peer on it, whichever command does it: since fix b5aa87e buryStore
+(* a store becomes tombstone only while no region has a peer on it, whichever command does it: since fix 2f015b8 buryStore
    itself looks at the region tree under the cluster lock, so the former exemption of a direct buryStore call is gone *)
 Theorem C14_bury_only_empty :
   forall s o s' r id x y, run_cmd s o = (s', r) ->
@@ -51,7 +51,7 @@ Theorem C14_live_addresses_unique :
 Proof. exact live_addresses_unique_pf. Qed.
 
 (* ---------- durability ----------
-   (proved on the code as repaired by the fix commits 52967fc, 5702f33, fd69f18 in /repo; on the tree before them both
+   (proved on the code as repaired by the fix commits 7f1a0f1, 0d04e9a, eebcdab in /repo; on the tree before them both
    full statements were refuted, by the witnesses that are now the regression theorems below) *)
 (* "After every successful change the stored record equals the served record."
    sproj = the lifecycle/identity fields of the served record (address, state, physically-destroyed,
